@@ -153,12 +153,20 @@ func HarnessC04RunHistory() {
 
 // Pool level: ammo is the binding bound while instance start is still ramping up and another
 // instance already holds an item and waits for its (timed) token.
-func HarnessC03PoolRampOutOfAmmo() {
+func HarnessC03PoolRampOutOfAmmo() { c03PoolRamp(false) }
+
+// the same pool with lazy timers (a pause ends only when nobody has work left) and 1-3 items
+func HarnessC03PoolRampLazy() { c03PoolRamp(true) }
+
+func c03PoolRamp(lazy bool) {
 	// interleavings are the subject here, not durations: concrete pauses, frozen clock
 	d1, d2 := time.Second, time.Second
 	vFreezeClock()
 	items := 1
-	if vThorough() {
+	if lazy {
+		vLazyTimers()
+		items = int(vConcretize(vNondetInt("items", 1, 3)))
+	} else if vThorough() {
 		items = int(vConcretize(vNondetInt("items", 1, 2)))
 	}
 	prov := &hProvider{q: make(chan core.Ammo, 1), items: items, failAt: -1}
